@@ -285,6 +285,10 @@ def run(prog, rep, tier):
     r1b.analysed(efv.name)
     check_evpn_cmp(prog, efv, r1b)
 
+    # ---------------------------------------------------------------- R02.1c
+    r1c = rep.rule("R02.1c", "the eBGP-over-iBGP step classifies the peer roles as stated: Ebgp and RsClient before Ibgp, IbgpRrClient and ConfedEbgp")
+    check_role_class(prog, r1c)
+
     # ---------------------------------------------------------------- R02.3
     r3 = rep.rule("R02.3", "ECMP key tuple = comparator steps minus the final router-id step, same order")
     ek = prog.one(r"rustybgp_table::NlriChange::ecmp_paths")
@@ -332,6 +336,44 @@ def _ga(prog, s):
     # generic args of the cmp call are embedded in resolved impl names, e.g. "<impl Ord for u32>::cmp"
     m = re.search(r"impl std::cmp::Ord for (\w+)>", s["cmp"])
     return "[%s]" % m.group(1) if m else ""
+
+
+def check_role_class(prog, r):
+    """PeerRole::prefers_over_ibgp is the key of the 'eBGP over iBGP / confed-eBGP' step (comparator and ECMP tuple alike): true
+    exactly for Ebgp and RsClient (RFC 5065 section 9: a confederation-eBGP path is not preferred over iBGP).  Truth table over the
+    role, however the predicate is written (matches!, negated matches!, match with arms)."""
+    from .. import predicates
+    ks = prog.find(r"rustybgp_table::PeerRole::prefers_over_ibgp")
+    if len(ks) != 1:
+        r.unanalysable("PeerRole::prefers_over_ibgp anchor matched %d" % len(ks))
+        return
+    ROLES = ["RsClient", "Ibgp", "IbgpRrClient", "ConfedEbgp", "Ebgp"]
+
+    def cls(e, labels, fvx):
+        lab = set(labels)
+        if e[0] == "discr" and e[2] and e[2].endswith("PeerRole") and "else" not in lab:
+            return ("role", frozenset(lab))
+        if e[0] == "call" and re.search(r"PartialEq(>)?::(eq|ne)$", e[1]) and "PeerRole" in (e[5] or "") and len(lab) == 1 and lab <= {"true", "false"}:
+            c = [x[3] for x in walk(e) if isinstance(x, tuple) and x and x[0] == "const" and x[3] in ROLES]
+            if len(c) == 1:
+                same = e[1].endswith("::eq") == (lab == {"true"})
+                return ("role", frozenset({c[0]}) if same else frozenset(set(ROLES) - {c[0]}))
+        return None
+    rws, fv = predicates.rows(prog, ks[0], cls)
+    r.analysed(fv.name)
+    if rws is None:
+        r.unanalysable("prefers_over_ibgp: too many paths", fv.loc())
+        return
+    bad = predicates.counterexamples(rws, {"role": ROLES}, lambda v: v["role"] in ("Ebgp", "RsClient"))
+    unk = sorted({u for f_, res_, us in rws for u in us})
+    if unk:
+        r.unanalysable("prefers_over_ibgp: conditions not understood: %s" % [u[0] for u in unk][:3], fv.loc())
+    elif bad:
+        kind, v, res_ = bad[0]
+        r.fail(fv.name, "role-class:" + str(v.get("role") if isinstance(v, dict) else "?"), "prefers_over_ibgp answers %s for role %s: the decision step ranks Ebgp and RsClient paths ahead of Ibgp, IbgpRrClient and "
+               "ConfedEbgp ones (a confederation-eBGP path must not beat an iBGP path at this step)" % (res_, v.get("role") if isinstance(v, dict) else v), fv.loc())
+    else:
+        r.ok("prefers_over_ibgp: true exactly for Ebgp and RsClient (%d paths)" % len(rws))
 
 
 def check_evpn_cmp(prog, efv, r):
